@@ -303,6 +303,21 @@ Theorem C11_literals_lex_roundtrip_partial : forall ts fuel,
 Proof. exact lex_lits_roundtrip. Qed.
 Print Assumptions C11_literals_lex_roundtrip_partial.
 
+(* the same in any right context: the run is read back and lexing continues with the text that follows *)
+Theorem C11_literals_lex_run_partial : forall ts rest fuel,
+  ltoks_ok_in ts rest = true -> (String.length (toks_text ts) + String.length rest < fuel)%nat ->
+  lex_lits fuel (toks_text ts ++ rest) = option_map (app ts) (lex_lits (fuel - List.length ts) rest).
+Proof. exact lex_lits_run. Qed.
+Print Assumptions C11_literals_lex_run_partial.
+
+(* the guards evaluated on whole trees: the five witnesses of the open re-lexing classes all fail them *)
+Example C11_text_guards_on_trees :
+  text_guards_ok t_unwrap_g_after = true /\ text_guards_ok (simp_ast t_unwrap_g) = false /\
+  text_guards_ok (simp_ast t_oct) = false /\ text_guards_ok (simp_ast t_rng2) = false /\
+  text_guards_ok (simp_ast t_esc_rep) = false /\ text_guards_ok (simp_ast t_esc_posix) = false.
+Proof. exact text_guards_examples. Qed.
+Print Assumptions C11_text_guards_on_trees.
+
 Theorem C11_relex_range_enumeration_refuted :
   items_ok None rl_range_items = false /\
   items_toks rl_range_items = Some [TChar "a"; TChar "b"; TMinus; TChar "x"] /\
